@@ -29,6 +29,9 @@ CHECKS = {
  "C12": ("fault_enumeration", "server-side request counting / timing lower bounds / result-and-state comparison with the fault-free run, over enumerated fault positions and hostile servers",
          "(a) attempt bound for every single-request operation against hosts that always fail in one of 9 ways, retry limits 1/2/3/5; (b) back-off and Retry-After lower bounds from server-side instants; (c) 16 operations x referrers API on/off x every request position x 7 retryable faults x 1..limit-1 repetitions, result and raw end state compared with the fault-free run; (d) 150 mirror sets (1.5 k thorough) with random priorities and has/lacks/fails hosts: contact order, fallback, no state-changing request at a mirror for any mutating operation; (e) 10 hostile never-progressing servers with a request-count cap; race-detector reports in internal/reghttp are attributed to this property.",
          "Retryable = the class the client documents (429 408 500 502 504, connection errors, truncated blob bodies from a range-capable endpoint). Timing clauses are lower bounds only. Two genuine defects are recorded as known findings (ascending mirror priority; referrers probe not absorbing transient faults).", "§3 C12"),
+ "C11": ("exploration", "taint-style monitor: unique random secrets, full request capture at every model host (URL, headers, body; raw / URL-decoded / base64), clear-text sniffing on TLS listeners, log scanning",
+         "220 seeded topologies per quick run (3 k thorough) of 2-5 hosts on distinct loopback addresses with distinct credentials (upstream, mirror, second registry, blob-redirect target, external-layer host, separate token endpoints) x auth schemes x plain / pinned TLS / insecure TLS x per-repository auth x extra and malformed challenges; 17 operations per topology incl. cross-registry copies with referrers and external layers; every request every host received is scanned for every other host's secrets, TLS listeners record clear text, trace-level library logs and regctl -v trace output are scanned.",
+         "A host may see the secrets of Y only if it is Y or the token endpoint Y itself named. Leaks are fingerprinted by mechanism (after a challenge from the receiver / unsolicited), owner role, receiver role and request kind; the credential hand-over to challenging redirect targets / external hosts is a recorded known finding.", "§3 C11"),
 }
 NOT_APPLICABLE = {}
 
